@@ -307,12 +307,13 @@ def nav(ctx):
     ni = repo.func(M + 'NavChain.__init__')
     it = absint.Interp(ni, [('handle is None', lambda e, s, tr: s['h'] == 'none'), ('isinstance(handle, Class)', lambda e, s, tr: s['h'] == 'instance'),
                             ('isinstance(handle, collections.abc.Iterable)', lambda e, s, tr: s['h'] in ('set',))],
-                       [('handle = _V', lambda e, s, tr: tr.append(src(e['_V']))), ('self.handle = handle', lambda e, s, tr: tr.append('store')),
+                       [('self.handle = _V', lambda e, s, tr: tr.append(('store', src(absint.strip0(e['_V']))))),
                         ('self._kind = None', lambda e, s, tr: True)])
-    for h, want in (('none', ['[]', 'store']), ('instance', ['[handle]', 'store']), ('set', ['store'])):
+    for h, want in (('none', ['[]', 'list()']), ('instance', ['[handle]']), ('set', ['handle'])):
         out, tr = it.run({'h': h})
-        r.check(tr == want and out.kind == 'falloff', 'NavChain(%s) starts from %s' % (h, want[0] if len(want) > 1 else 'the given collection'), ni,
-                construct=M + 'NavChain.__init__', key='init ' + h, msg='NavChain(%s): %s, ends %r' % (h, tr, out))
+        stored = [t[1] for t in tr if isinstance(t, tuple) and t[0] == 'store']
+        r.check(len(stored) == 1 and stored[0] in want and out.kind == 'falloff', 'NavChain(%s) starts from %s' % (h, want[0]), ni,
+                construct=M + 'NavChain.__init__', key='init ' + h, msg='NavChain(%s) stores %s, ends %r; expected %s' % (h, stored, out, want[0]))
     out, tr = it.run({'h': 'other'})
     r.check(out.kind == 'raise' and exception_class_name(out.node) == 'MetaException', 'a non-iterable handle is rejected with MetaException', ni,
             construct=M + 'NavChain.__init__', key='init other', msg='NavChain(<non iterable>) ends with %r' % out)
